@@ -95,3 +95,14 @@ Proof.
     + rewrite Hb. reflexivity.
   - rewrite H9. reflexivity.
 Qed.
+
+(* on success [reader_after] is the remaining reader of [read_frame_chunked] *)
+Lemma reader_after_ok offers cs h body cs' :
+  read_frame_chunked offers cs = Ok ((h, body), cs') -> reader_after offers cs = cs'.
+Proof.
+  unfold read_frame_chunked, reader_after.
+  destruct (read_n (S (stream_len cs)) 9 offers cs []) as [[raw|] cs1]; [|discriminate].
+  destruct (run parse_header raw) as [[h0 r0]|e]; [|discriminate].
+  destruct (read_n (S (stream_len cs1)) (h_length h0) (skipn 9 offers) cs1 []) as [[b|] cs2]; [|discriminate].
+  intros E. inversion E. reflexivity.
+Qed.
